@@ -33,7 +33,12 @@ def knobs_from(rng, tier):
     # scheduler pool (sim/kernel.py slow_pool)
     r2 = random.Random(repr(rng.getstate()[1][:8]))
     slow = [r2.randint(1, 8), r2.choice([0.05, 0.2, 0.5])] if r2.random() < 0.1 else None
+    # ... and one in sixteen one slow kind of thread (sim/kernel.py slow_thread): engine monitors, timer/restart
+    # threads, the controller's main loop, or the workers of one scheduler
+    slow_thr = ([r2.choice(['(EngineCore)', 'Thread-', 'MainThread', 'Pool1_', 'Pool3_', 'Pool7_', 'Pool8_']),
+                 r2.choice([0.002, 0.01, 0.03])] if r2.random() < 0.0625 else None)
     return {
+        'slow_thread': slow_thr,
         'slow_pool': slow,
         'preempt_p': rng.choice([0.0, 0.02, 0.1, 0.3]),
         'stall_p': rng.choice([0.0, 0.0, 0.002, 0.01]),
@@ -97,6 +102,10 @@ def finish_run(simk, R, K, root, result):
     c['kernel.switches'] = K.switches
     c['kernel.threads'] = K.nthreads
     c['fault.stall'] = K.stalls
+    if K.slow_thread:
+        c['fault.run_with_one_slow_kind_of_thread'] = 1
+    if K.slow_pool:
+        c['fault.run_with_one_slow_scheduler_pool'] = 1
     c['fault.preempt'] = K.preempts
     c['fault.pool_task_delayed'] = K.pool_delays
     c['fault.slow_pool_task_delayed'] = K.slow_pool_delays
